@@ -590,5 +590,152 @@ pub fn operations(
 }
 //@end
 
+
+// ---------------------------------------------------------------- distance / prefix_distance (R9: floats split off)
+// Verus does not interpret IEEE values.  A float produced by `E as f64` carries the ghost integer it was cast from,
+// a quotient carries its (numerator, denominator).  The value-level facts ((n as f64)/(m as f64) is in [0,1] for
+// n <= m, m >= 1, and is 0 iff n == 0) are the loop-free Kani lemma `norm_quotient` (kani/float_lemmas).
+pub uninterp spec fn f_int(x: f64) -> int;
+pub uninterp spec fn f_num(x: f64) -> int;
+pub uninterp spec fn f_den(x: f64) -> int;
+#[verifier::external_body]
+fn vt_f64(x: usize) -> (r: f64) ensures f_int(r) == x { x as f64 }
+/// the quotient is *defined*: denominator at least 1 (no 0/0, no x/0)
+#[verifier::external_body]
+fn vt_fdiv(a: f64, b: f64) -> (r: f64) requires f_int(b) >= 1, ensures f_num(r) == f_int(a), f_den(r) == f_int(b) { a / b }
+#[verifier::external_body]
+fn vt_fdiv_any(a: f64, b: f64) -> (r: f64) ensures f_num(r) == f_int(a), f_den(r) == f_int(b) { a / b }
+/// `V[a..b].iter().min().copied().unwrap_or(0)` (std semantics)
+#[verifier::external_body]
+fn vt_slice_min_or0(v: &Vec<usize>, a: usize, b: usize) -> (r: usize)
+    requires a <= b <= v.len(),
+    ensures a == b ==> r == 0,
+        a < b ==> (exists|j: int| 0 <= j < b - a && #[trigger] row(v@, a as int, j) == r),
+        forall|j: int| 0 <= j < b - a ==> r <= #[trigger] row(v@, a as int, j),
+{ unimplemented!() }
+pub open spec fn row(v: Seq<usize>, lo: int, j: int) -> int { v[lo + j] as int }
+
+pub open spec fn max2(a: nat, b: nat) -> nat { if a >= b { a } else { b } }
+
+proof fn lemma_dist_le_max(a: Seq<Seq<char>>, b: Seq<Seq<char>>, i: nat, j: nat, sw: bool)
+    ensures dist(a, b, i, j, sw, false) <= max2(i, j)
+    decreases i + j
+{
+    if i == 0 || j == 0 {} else {
+        lemma_dist_le_max(a, b, (i - 1) as nat, (j - 1) as nat, sw);
+    }
+}
+proof fn lemma_dist_self(a: Seq<Seq<char>>, i: nat, sw: bool, sp: bool)
+    ensures dist(a, a, i, i, sw, sp) == 0
+    decreases i
+{
+    if i > 0 { lemma_dist_self(a, (i - 1) as nat, sw, sp); }
+}
+
+//@unit src/edit.rs fn distance
+//@rule R9
+pub fn distance(
+    a: &str,
+    b: &str,
+    use_graphemes: bool,
+    with_swap: bool,
+    spaces_insert_delete_only: bool,
+    normalized: bool,
+) -> (r: f64)
+    requires table_fits(chars_of(a, use_graphemes).len(), chars_of(b, use_graphemes).len()),
+    ensures
+        // numerator: the reference metric
+        f_num(r) == dist(chars_of(a, use_graphemes), chars_of(b, use_graphemes), chars_of(a, use_graphemes).len(), chars_of(b, use_graphemes).len(), with_swap, spaces_insert_delete_only),
+        // denominator: 1, or the longer length (the quotient is always defined: vt_fdiv's precondition)
+        f_den(r) >= 1,
+        !normalized ==> f_den(r) == 1,
+        normalized && max2(chars_of(a, use_graphemes).len(), chars_of(b, use_graphemes).len()) >= 1 ==>
+            f_den(r) == max2(chars_of(a, use_graphemes).len(), chars_of(b, use_graphemes).len()),
+        // 0 for equal strings (including two empty ones)
+        chars_of(a, use_graphemes) == chars_of(b, use_graphemes) ==> f_num(r) == 0,
+        // normalised value in [0, 1] (numerator <= denominator; with the Kani lemma)
+        normalized && !spaces_insert_delete_only ==> f_num(r) <= f_den(r),
+        // the statement claims [0, 1] for every flag combination; with spaces_insert_delete_only a whitespace
+        // character cannot be substituted, so the distance can exceed the longer length (known finding)
+        normalized && spaces_insert_delete_only ==> f_num(r) <= f_den(r),
+{
+    let a_cs = CS::new(a, use_graphemes);
+    let b_cs = CS::new(b, use_graphemes);
+    let ghost sa = chars_of(a, use_graphemes);
+    let ghost sb = chars_of(b, use_graphemes);
+    let norm = if normalized {
+        vt_f64(a_cs.len().max(b_cs.len()).max(1))
+    } else {
+        vt_f64(1)
+    };
+    let (d, _) = _calculate_edit_matrices(a_cs, b_cs, with_swap, spaces_insert_delete_only);
+    proof {
+        let (n, m) = (sa.len() as int, sb.len() as int);
+        lemma_idx(n, m, n + 1, m + 1);
+        assert(n * (m + 1) + m == (n + 1) * (m + 1) - 1) by (nonlinear_arith);
+        assert(cell(d@, m + 1, n, m) == dist(sa, sb, n as nat, m as nat, with_swap, spaces_insert_delete_only));
+        if !spaces_insert_delete_only { lemma_dist_le_max(sa, sb, n as nat, m as nat, with_swap); }
+        if sa == sb { lemma_dist_self(sa, n as nat, with_swap, spaces_insert_delete_only); }
+    }
+    vt_fdiv(vt_f64(d.last().copied().unwrap_or(0)), norm)
+}
+//@end
+
+/// minimum over all prefixes of b
+pub open spec fn is_prefix_min(v: int, a: Seq<Seq<char>>, b: Seq<Seq<char>>, sw: bool, sp: bool) -> bool {
+    &&& exists|j: int| 0 <= j <= b.len() && v == #[trigger] dist(a, b, a.len(), j as nat, sw, sp)
+    &&& forall|j: int| 0 <= j <= b.len() ==> v <= #[trigger] dist(a, b, a.len(), j as nat, sw, sp)
+}
+
+//@unit src/edit.rs fn prefix_distance
+//@rule R6_slice_min
+//@rule R9(vt_fdiv_any)
+//@rule R16(vt_slice_min_or0 ;; vt_m)
+pub fn prefix_distance(
+    a: &str,
+    b: &str,
+    use_graphemes: bool,
+    with_swap: bool,
+    spaces_insert_delete_only: bool,
+    normalized: bool,
+) -> (r: f64)
+    requires table_fits(chars_of(a, use_graphemes).len(), chars_of(b, use_graphemes).len()),
+    ensures
+        is_prefix_min(f_num(r), chars_of(a, use_graphemes), chars_of(b, use_graphemes), with_swap, spaces_insert_delete_only),
+        f_den(r) == (if normalized { chars_of(a, use_graphemes).len() as int } else { 1 }),
+{
+    let a_cs = CS::new(a, use_graphemes);
+    let b_cs = CS::new(b, use_graphemes);
+    let ghost sa = chars_of(a, use_graphemes);
+    let ghost sb = chars_of(b, use_graphemes);
+    let i = a_cs.len();
+    let cols = b_cs.len() + 1;
+    let norm = if normalized { vt_f64(a_cs.len()) } else { vt_f64(1) };
+    let (d, _) = _calculate_edit_matrices(a_cs, b_cs, with_swap, spaces_insert_delete_only);
+    proof {
+        let (n, m) = (sa.len() as int, sb.len() as int);
+        assert((n + 1) * (m + 1) == n * (m + 1) + (m + 1)) by (nonlinear_arith);
+        assert(n * (m + 1) >= 0) by (nonlinear_arith) requires n >= 0, m >= 0;
+        assert forall|j: int| 0 <= j <= m implies #[trigger] row(d@, n * (m + 1), j) == dist(sa, sb, n as nat, j as nat, with_swap, spaces_insert_delete_only) by {
+            assert(cell(d@, m + 1, n, j) == dist(sa, sb, n as nat, j as nat, with_swap, spaces_insert_delete_only));
+        }
+    }
+
+    // find minimum in last row
+    let vt_m = vt_slice_min_or0(&d, i * cols, (i + 1) * cols);
+    proof {
+        let (n, m) = (sa.len() as int, sb.len() as int);
+        assert(i * cols == n * (m + 1));
+        assert((i + 1) * cols - i * cols == m + 1);
+        let j0 = choose|j: int| 0 <= j < m + 1 && #[trigger] row(d@, n * (m + 1), j) == vt_m;
+        assert(vt_m == dist(sa, sb, sa.len(), j0 as nat, with_swap, spaces_insert_delete_only));
+        assert forall|j: int| 0 <= j <= sb.len() implies vt_m <= #[trigger] dist(sa, sb, sa.len(), j as nat, with_swap, spaces_insert_delete_only) by {
+            assert(vt_m <= row(d@, n * (m + 1), j));
+        }
+        assert(is_prefix_min(vt_m as int, sa, sb, with_swap, spaces_insert_delete_only));
+    }
+    vt_fdiv_any(vt_f64(vt_m), norm)
+}
+//@end
 } // verus!
 fn main() {}
